@@ -304,8 +304,24 @@ static CLOCK_CALLS: AtomicU64 = AtomicU64::new(0);
 static CLOCK_FIRE_AT: AtomicU64 = AtomicU64::new(0);
 static CLOCK_FIRED: AtomicBool = AtomicBool::new(false);
 
+/// elapsed time (ms) the search sees once the virtual clock has fired; u64::MAX = "a day"
+static CLOCK_ELAPSED_MS: AtomicU64 = AtomicU64::new(u64::MAX);
+
+/// By default every time limit has expired once the clock fires. With a finite value the search
+/// sees exactly that much elapsed time instead, e.g. more than one side's budget but less than
+/// the other's.
+pub fn clock_elapsed_after_fire(ms: u64) {
+    CLOCK_ELAPSED_MS.store(ms, Ordering::Relaxed);
+}
+
 fn far_past() -> Instant {
     let now = Instant::now();
+    let ms = CLOCK_ELAPSED_MS.load(Ordering::Relaxed);
+    if ms != u64::MAX {
+        if let Some(t) = now.checked_sub(Duration::from_millis(ms)) {
+            return t;
+        }
+    }
     for secs in [86_400u64, 3_600, 600, 60, 10, 1] {
         if let Some(t) = now.checked_sub(Duration::from_secs(secs)) {
             return t;
